@@ -32,8 +32,8 @@ static uint32_t driver_id = 0x20260928; /* increment when driver changes */
 static uint64_t config_id = 0;
 
 static FILE *crdir_fopen(char *);
-static void patch_out (program_t *, short *, size_t);
-static void patch_in (program_t *, short *, size_t);
+static void patch_out (program_t *, unsigned short *, size_t);
+static void patch_in (program_t *, unsigned short *, size_t);
 static int str_case_cmp (char *, char *);
 static int check_times (time_t, const char *);
 static int locate_in (program_t *);
@@ -138,7 +138,7 @@ void save_binary (program_t * prog, mem_block_t * includes, mem_block_t * patche
   if (patches->current_size)
     {
       locate_in (p);
-      patch_out (p, (short *) patches->block, patches->current_size / sizeof (short));
+      patch_out (p, (unsigned short *) patches->block, patches->current_size / sizeof (short));
       locate_out (p);
     }
 
@@ -833,7 +833,7 @@ program_t *load_binary (const char *name) {
       if (fread (buf, len, 1, f) == 1)
         {
           /* fix up some stuff */
-          patch_in (p, (short *) buf, len / sizeof (short));
+          patch_in (p, (unsigned short *) buf, len / sizeof (short));
         }
     }
   opt_trace (TT_COMPILE|3, "applied patches ok.");
@@ -918,7 +918,7 @@ check_times (time_t mtime, const char *nm)
  * that might need patching.
  */
 static void
-patch_out (program_t * prog, short *patches, size_t len)
+patch_out (program_t * prog, unsigned short *patches, size_t len)
 {
   int i;
   char *p;
@@ -929,7 +929,7 @@ patch_out (program_t * prog, short *patches, size_t len)
       i = patches[--len];
       if (p[i] == F_SWITCH && p[i + 1] >> 4 != 0xf)
         {			/* string switch */
-          short offset, break_addr;
+          unsigned short offset, break_addr;	/* code offsets are 16 bits unsigned: a program has up to 65535 bytes */
           char *s;
 
           /* replace strings in table with string table indices */
@@ -966,7 +966,7 @@ str_case_cmp (char *a, char *b)
 }				/* str_case_cmp() */
 
 static void
-patch_in (program_t * prog, short *patches, size_t len)
+patch_in (program_t * prog, unsigned short *patches, size_t len)
 {
   int i;
   char *p;
@@ -977,7 +977,7 @@ patch_in (program_t * prog, short *patches, size_t len)
       i = patches[--len];
       if (p[i] == F_SWITCH && p[i + 1] >> 4 != 0xf)
         {			/* string switch */
-          short offset, start, break_addr;
+          unsigned short offset, start, break_addr;
           char *s;
 
           /* replace string indices with string pointers */
